@@ -1,4 +1,4 @@
-//@ class: bare number as angle
+//@ class: bare number as angle / angle as number
 //@ entry: rotate_x
 //@ expect: E0308
 //@ requires: fp
